@@ -168,7 +168,7 @@ def find_cdef(unit_name):
 def replay_inputs(unit, inputs, chain):
     import signal
     cd = find_cdef(unit)
-    fn, owner, kind = verify.resolve_target(cd.target)
+    fn, owner, kind = verify.resolve_target(cd.target, native=True)
 
     def _alarm(sig, frm):
         raise replay.ReplayTimeout('replay timed out')
@@ -509,7 +509,7 @@ def main(argv):
 
 
 def bounded_standin(cd, chain, rng, n):
-    fn, owner, kind = verify.resolve_target(cd.target)
+    fn, owner, kind = verify.resolve_target(cd.target, native=True)
     gens = None
     bad = []
     ran = 0
